@@ -3229,7 +3229,7 @@ impl TypeChecker {
                 && !old(seen)@.contains((TyID(rep0(old(self).types@, a.0 as int) as usize), TyID(rep0(old(self).types@, b.0 as int) as usize)))
                 ==> r is Err, //# C03,C04,C05 sub_unify.clashing_types_rejected
             r is Ok ==> rep0(final(self).types@, a.0 as int) == rep0(final(self).types@, b.0 as int)
-                || old(seen)@.contains((TyID(rep0(old(self).types@, a.0 as int) as usize), TyID(rep0(old(self).types@, b.0 as int) as usize))), //# C02,C03 sub_unify.ok_means_one_class_or_already_pending
+                || old(seen)@.contains((TyID(rep0(old(self).types@, a.0 as int) as usize), TyID(rep0(old(self).types@, b.0 as int) as usize))), //# C02,C03,C04,C05 sub_unify.ok_means_one_class_or_already_pending
             r is Ok ==> rep0(final(self).types@, r->Ok_0.0 as int) == rep0(final(self).types@, a.0 as int), //# C02 sub_unify.returns_a_member_of_the_class
             r is Ok && !(ty_of(old(self).types@, a) is Unknown) && !(ty_of(old(self).types@, b) is Unknown)
                 && !old(seen)@.contains((TyID(rep0(old(self).types@, a.0 as int) as usize), TyID(rep0(old(self).types@, b.0 as int) as usize)))
@@ -3349,7 +3349,7 @@ impl TypeChecker {
         ensures final(self).inv2(), final(self).grows(old(self)), r is Ok ==> final(self).valid(r->Ok_0), //# C02,C07 unify.spec.aux2
             head_clash(ty_of(old(self).types@, a), ty_of(old(self).types@, b))
                 && rep0(old(self).types@, a.0 as int) != rep0(old(self).types@, b.0 as int) ==> r is Err, //# C03,C04,C05 unify.clashing_types_rejected
-            r is Ok ==> rep0(final(self).types@, a.0 as int) == rep0(final(self).types@, b.0 as int), //# C02,C03 unify.ok_means_the_two_ids_are_one_class
+            r is Ok ==> rep0(final(self).types@, a.0 as int) == rep0(final(self).types@, b.0 as int), //# C02,C03,C04,C05 unify.ok_means_the_two_ids_are_one_class
             r is Ok ==> rep0(final(self).types@, r->Ok_0.0 as int) == rep0(final(self).types@, a.0 as int), //# C02 unify.returns_a_member_of_the_class
             r is Ok && !(ty_of(old(self).types@, a) is Unknown) && !(ty_of(old(self).types@, b) is Unknown)
                 ==> shape_eq(ty_of(old(self).types@, a), ty_of(old(self).types@, b)), //# C03,C05 unify.two_known_types_that_unify_have_one_shape
